@@ -395,8 +395,8 @@ pub fn run_request_with(env: &Env, w: &mut Wallet, m: &Model, ledger: &[NoteView
             // COVERAGE
             // propose_shielding: the threshold bounds the total input value (ShieldingSelector docs)
             let need = match req.entry {
-                Entry::SendMax => MIN_FEE + 1,
-                Entry::Shield => amount.max(MIN_FEE + 1),
+                Entry::SendMax => MIN_FEE,
+                Entry::Shield => amount.max(MIN_FEE),
                 _ => amount + MIN_FEE,
             };
             if ub < need {
@@ -691,11 +691,28 @@ pub fn lattice(level: usize) -> Lattice {
                 }
             }
         }
+        for a in [Fixed(10_000), Fixed(85_000), UbMinus(0), UbPlus(1)] {
+            for c in [Conf::Min, Conf::Default, Conf::NoZeroConf] {
+                for l in lps {
+                    v.push(rq(Entry::Shield, a, Rcpt::Sapling, c, l, Chg::Single, Pools::All, false));
+                }
+            }
+        }
+        for a in [Fixed(30_000), Fixed(100_000), Fixed(1_250_000), UbMinus(MIN_FEE - 1), UbPlus(1)] {
+            for r in [Rcpt::Sapling, Rcpt::Unified, Rcpt::Transparent] {
+                for c in [Conf::Min, Conf::Default, Conf::NoZeroConf] {
+                    for l in [LockPol::Exclude, LockPol::PreferLockedX] {
+                        v.push(rq(Entry::Transfer, a, r, c, l, Chg::Single, Pools::AllPlusTransparent, false));
+                    }
+                }
+            }
+        }
         Lattice {
             reqs: v,
             describe: "thorough: propose_transfer {30k,100k,1M(canonical ZIP 318),1.25M,UB-10000,UB-9999,UB+1} x {Sapling,UA/Orchard,P2PKH,TEX} x {MIN,3/10} x {Exclude,PreferUnlocked{X},PreferLocked{X},PreferUnlocked{X,Y}} x {single,split change}; \
                        Sapling-only spend policy for 3 amounts x 2 recipients x 2 x 2; propose_standard_transfer_to_address 7 amounts x 3 recipients x 2 policies; propose_send_max_transfer 4 recipients x 2 x 4 x {all pools,Sapling only} x {MaxSpendable,Everything}, \
-                       each MaxSpendable one followed by propose_transfer of exactly the send-max amount and of that amount + 1 (single and split change)"
+                       each MaxSpendable one followed by propose_transfer of exactly the send-max amount and of that amount + 1 (single and split change); \
+                       propose_shielding thresholds {10k,85k,UB,UB+1} x {MIN,3/10,1/2 without zero-conf} x 4 lock policies; propose_transfer with transparent spending permitted {30k,100k,1.25M,UB-9999,UB+1} x 3 recipients x 3 policies x {Exclude,PreferLocked{X}}"
                 .into(),
         }
     } else if level == 1 {
@@ -744,11 +761,26 @@ pub fn lattice(level: usize) -> Lattice {
                 }
             }
         }
+        for a in [Fixed(10_000), UbPlus(1)] {
+            for c in [Conf::Min, Conf::Default, Conf::NoZeroConf] {
+                for l in [LockPol::Exclude, LockPol::PreferUnlockedXY] {
+                    v.push(rq(Entry::Shield, a, Rcpt::Sapling, c, l, Chg::Single, Pools::All, false));
+                }
+            }
+        }
+        for a in [Fixed(100_000), UbMinus(MIN_FEE - 1)] {
+            for c in [Conf::Min, Conf::NoZeroConf] {
+                for l in [LockPol::Exclude, LockPol::PreferLockedX] {
+                    v.push(rq(Entry::Transfer, a, Rcpt::Sapling, c, l, Chg::Single, Pools::AllPlusTransparent, false));
+                }
+            }
+        }
         Lattice {
             reqs: v,
             describe: "quick (pruned): propose_transfer {30k,100k,1M,UB-9999} x {Sapling,UA/Orchard} x {MIN,3/10} x 4 lock policies, single change; split change for {30k,100k} x 2 recipients x 2 x {Exclude,PreferLocked{X}}; \
                        P2PKH and TEX recipients for 30k x 2 x {Exclude,PreferUnlocked{X,Y}}; one Sapling-only spend policy request per confirmation policy; propose_standard_transfer_to_address 1.25M x 3 recipients x 2 and 30k to P2PKH x 2; \
-                       propose_send_max_transfer 2 recipients x 2 x {Exclude,PreferUnlocked{X,Y}} MaxSpendable and x Exclude Everything, the Exclude one followed by propose_transfer of exactly that amount and of that amount + 1"
+                       propose_send_max_transfer 2 recipients x 2 x {Exclude,PreferUnlocked{X,Y}} MaxSpendable and x Exclude Everything, the Exclude one followed by propose_transfer of exactly that amount and of that amount + 1; \
+                       propose_shielding thresholds {10k,UB+1} x {MIN,3/10,1/2 without zero-conf} x {Exclude,PreferUnlocked{X,Y}}; propose_transfer with transparent spending permitted {100k,UB-9999} to Sapling x {MIN,1/2 without zero-conf} x {Exclude,PreferLocked{X}}"
                 .into(),
         }
     } else {
@@ -773,17 +805,21 @@ pub fn lattice(level: usize) -> Lattice {
             }
         }
         v.push(rq(Entry::SendMax, Fixed(0), Rcpt::Unified, Conf::Min, LockPol::PreferUnlockedX, Chg::Single, Pools::All, false));
+        for c in [Conf::Min, Conf::NoZeroConf] {
+            v.push(rq(Entry::Shield, Fixed(10_000), Rcpt::Sapling, c, LockPol::Exclude, Chg::Single, Pools::All, false));
+        }
+        v.push(rq(Entry::Transfer, Fixed(100_000), Rcpt::Sapling, Conf::Min, LockPol::Exclude, Chg::Single, Pools::AllPlusTransparent, false));
         Lattice {
             reqs: v,
             describe: "core: propose_transfer {30k,100k} x {Sapling,UA/Orchard} x {MIN,3/10} x {Exclude,PreferLocked{X}}; UB-9999 to Sapling under MIN x {Exclude,PreferUnlocked{X,Y}}; 1M to UA under 3/10; 30k to TEX; 100k split change PreferUnlocked{X}; \
-                       propose_send_max_transfer (MaxSpendable: selects every eligible note) to Sapling x {MIN,3/10} x {Exclude,PreferUnlocked{X,Y}} and to UA under MIN PreferUnlocked{X}"
+                       propose_send_max_transfer (MaxSpendable: selects every eligible note) to Sapling x {MIN,3/10} x {Exclude,PreferUnlocked{X,Y}} and to UA under MIN PreferUnlocked{X}; propose_shielding threshold 10k x {MIN,1/2 without zero-conf}; propose_transfer 100k with transparent spending permitted"
                 .into(),
         }
     }
 }
 
 /// Evaluate the whole lattice in one state. Returns outcome labels and violations (request key, message, request).
-pub fn eval_state(env: &Env, w: &mut Wallet, m: &Model, lat: &Lattice) -> (Vec<String>, Vec<(Req, String)>, u64) {
+pub fn eval_state(env: &Env, w: &mut Wallet, m: &Model, lat: &Lattice) -> (Vec<String>, Vec<(Option<Req>, String)>, u64) {
     let te = std::time::Instant::now();
     let ledger = m.ledger(env);
     let mut cache = WitnessCache::default();
@@ -820,12 +856,12 @@ pub fn eval_state(env: &Env, w: &mut Wallet, m: &Model, lat: &Lattice) -> (Vec<S
                     }
                 }
             }
-            Err(msg) => fails.push((r.clone(), msg)),
+            Err(msg) => fails.push((Some(r.clone()), msg)),
         }
     }
     let after = super::model::lock_rows(w.db.conn());
     if before != after {
-        fails.push((lat.reqs[0].clone(), format!("proposals without a lock request changed the lock state: before {before:?} after {after:?}")));
+        fails.push((None, format!("proposals without a lock request changed the lock state: before {before:?} after {after:?}")));
     }
     EVAL_NS.fetch_add(te.elapsed().as_nanos() as u64, std::sync::atomic::Ordering::Relaxed);
     (outs, fails, n)
